@@ -22,7 +22,8 @@ LEVEL = "exploration"
 RULE = ("Hypothesis (DocSpec, operation history) pairs: documents with 0, 1 and several regions, content before/inside/after the content "
         "interval, region backgrounds made visible only by animation or initial values; histories of 4-12 (quick) operations drawn from "
         "significant_times / from_model(t) / from_model(t, sig) / generate_isd_sequence / SRT / VTT / IMSC writer calls on one document "
-        "object, t drawn from the reference's probe times. evaluations = operations executed; non-trivial = history with >= 1 cached and "
+        "object, t drawn from the reference's probe times; part all_props repeats this over documents using all 36 style properties "
+        "and ruby. evaluations = operations executed; non-trivial = history with >= 1 cached and "
         ">= 1 uncached snapshot at a time where the snapshot has content and >= 1 writer call before a snapshot call; distinct by case hash.")
 ASSUMPTIONS = [
   "cached and uncached snapshots are compared after removing, from both, regions without content that paint nothing at t according to "
@@ -82,6 +83,15 @@ def steer(spec, choices):
     r["anims"] = [a for a in r["anims"] if a[0] not in (name, "Display")] + [(name, b, e, reveal)]
     r["begin"] = None
   return spec
+
+
+# every style property (the source-unchanged and equivalence clauses do not depend on which properties a document uses)
+PROF_ALL = gen_model.profile(style_density=(0, 3), max_nodes=16, ruby=True, br_styles=False, anim_on_offset=False, props=None,
+                             initial_counts=(0, 0, 1, 2))
+
+
+def cases_all(tier):
+  return st.builds(lambda spec, ops: {"spec": spec, "ops": ops}, gen_model.docspecs(PROF_ALL), ops_strategy(8 if tier == "quick" else 20))
 
 
 def cases(tier):
@@ -206,4 +216,5 @@ def check(case, res):
 PARTS = {
   "main": Part("main", check, strategy=cases, n=(960, 64000), shrinker=SHRINK,
                required_labels=("regions:0", "regions:1", "regions:2", "empty-painting-region-at-probe", "region-background-animated")),
+  "all_props": Part("all_props", check, strategy=cases_all, n=(640, 32000), shrinker=SHRINK),
 }
